@@ -219,6 +219,8 @@ def run(rep, tier):
         rep.set_cfg(cfg)
         rep.call(must_write, rep, prog, "C05.must-write")
         rep.call(temp_size, rep, prog, "C05.temp-size")
+        from ..engines import zerodim
+        rep.call(zerodim.zero_untouched, rep, prog, "C05.zero-untouched")
         rep.call(views.rows_bounded, rep, prog, "C05.rows-bounded")
         rep.call(row_coverage.group_tail, rep, prog, "C05.kernel-rows")
         rep.call(index_rules.cropped_row_slices, rep, prog, "C05.view-rect")
